@@ -205,6 +205,7 @@ def nontrivial(name, case):
 def distribution(name, case):
     if name == "unordered":
         yield f"unordered.count={'float64 (count/4)' if case.get('quarter') else 'int32'}"
+        yield f"unordered.in_chunk_repeats={bool(case.get('in_chunk_repeats'))}"
         for ch in case["chunkings"]:
             yield f"unordered.nchunks={len(ch)}"
 
@@ -239,6 +240,10 @@ def cases(tier, rng):
                         "params": [[2, 1, False], [1, 2, False], [5, 200, False]]}
     yield "unordered", {"n": 4, "symm": True, "chunkings": [[[[2, 3, 1], [0, 1, 2], [1, 1, 3], [0, 2, 4]], [[3, 3, 5], [0, 1, 6], [1, 2, 7]]]],
                         "params": [[2, 200, True, True], [1, 1, True, True]]}
+    # a pixel repeated INSIDE one chunk with the duplicate check off (seeded change C06-7): summed like any other repeat
+    yield "unordered", {"n": 3, "symm": True, "in_chunk_repeats": True,
+                        "chunkings": [[[[0, 1, 1], [0, 1, 2], [1, 2, 4]]], [[[0, 1, 1], [0, 1, 2]], [[2, 2, 5]]]],
+                        "params": [[1000, 200, False, True], [1, 200, False, True], [2, 1, True, True]]}
     # float count column through the two-pass merge (seeded change C06-4): four chunks, max_merge 2
     yield "unordered", {"n": 3, "symm": True, "quarter": True,
                         "chunkings": [[[[0, 1, 1], [1, 2, 3]], [[0, 1, 5]], [[1, 2, 2], [2, 2, 7]], [[0, 1, 1]]]],
@@ -266,8 +271,11 @@ def cases(tier, rng):
                 for r in recs:
                     p[rng.randrange(k)].append(r)
                 parts.append(p)
+        keep = _ % 4 == 3        # every fourth case: repeats INSIDE a chunk are kept (only legal with the duplicate check off)
         for p in parts:
-            p = _split_valid([list(c) for c in p])
+            # (a chunk cannot hold more records than the matrix has cells: the temporary store's pixel table is created with
+            # that maximal size — more repeats than cells fail with an HDF5 RuntimeError, see DESIGN 12.6)
+            p = [list(c) for c in p] if (keep and all(len(c) <= len(cells) for c in p)) else _split_valid([list(c) for c in p])
             if rng.random() < 0.3:
                 p.insert(rng.randint(0, len(p)), [])
             rng.shuffle(p)
@@ -276,6 +284,11 @@ def cases(tier, rng):
             chunkings.append(p)
         params = [[1, 200, False], [2, 1, False], [3, 2, True], [nrec, "k", False], [nrec + 1, "k+1", True], [2, 3, False],
                   [2, 200, True, True], [1, 2, True, True]]   # last two: ensure_sorted with every validation check off
+        if keep:
+            nock = [[2, 200, True, True], [1, 2, True, True], [3, 1, False, True], [nrec + 1, 200, False, True], [1, 1, False, True]]
+            yield "unordered", {"n": n, "symm": symm, "chunkings": chunkings, "params": nock if thorough else rng.sample(nock, 3),
+                                "layout": gen.split_layout(rng, n), "quarter": rng.random() < 0.3, "in_chunk_repeats": True}
+            continue
         yield "unordered", {"n": n, "symm": symm, "chunkings": chunkings,
                             "params": params if thorough else rng.sample(params[:6], 3) + [rng.choice(params[6:])],
                             "layout": gen.split_layout(rng, n), "quarter": rng.random() < 0.4}
